@@ -27,8 +27,9 @@ ANCHORS = [
     ("tangelo/linq/circuit.py", "simplify", "fixed-point iteration of the passes"),
     ("tangelo/linq/circuit.py", "trim_qubits,reindex_qubits,get_entangled_indices,split,stack", "split / trim / reindex / stack"),
     ("tangelo/linq/helpers/circuits/clifford_circuits.py", "decompose_gate_to_cliffords", "Clifford decomposition tables"),
+    ("tangelo/toolboxes/operators/trim_trivial_qubits.py", "is_bitflip_gate,trim_trivial_circuit", "trimming of qubits left in a computational-basis state"),
 ]
-REQUIRED = {"live_observations_total": 5, "inverse": 100, "merge_rotations": 100, "remove_redundant_gates": 100, "remove_small_rotations": 100, "simplify": 100, "split_stack": 50, "trim_qubits": 50, "reindex_qubits": 25, "copy_add_mul": 100, "gate_equality": 200, "clifford_decomposition": 100, "input_unchanged": 300}
+REQUIRED = {"live_observations_total": 5, "inverse": 100, "merge_rotations": 100, "remove_redundant_gates": 100, "remove_small_rotations": 100, "simplify": 100, "split_stack": 50, "trim_qubits": 50, "reindex_qubits": 25, "copy_add_mul": 100, "gate_equality": 200, "clifford_decomposition": 100, "input_unchanged": 300, "trim_trivial_circuit": 60}
 BUDGET = {"quick": 240, "thorough": 2400}
 TOL = 1e-9
 
@@ -40,6 +41,7 @@ def cases(tier, seed):
     out += [{"sub": "clifford", "kmax": 12 if tier == "quick" else 64}]
     out += [{"sub": "reindex", "i": i} for i in range(64 if tier == "quick" else 4000)]
     out += [{"sub": "gaptrim", "i": i} for i in range(96 if tier == "quick" else 8000)]
+    out += [{"sub": "trivial_trim", "i": i} for i in range(120 if tier == "quick" else 6000)]
     out.append({"sub": "repo_tests", "tier": tier})
     return out
 
@@ -398,5 +400,59 @@ def run_repo_tests(case, ctx):
                     only=('pass_keeps_unitary_',), semantic=('C09',))
 
 
+def run_trivial_trim(case, ctx):
+    """trim_trivial_circuit: the state prepared by the original circuit is (trimmed circuit's state on the kept qubits, in ascending order)
+    x (the reported basis state on every removed qubit), up to a global phase; the input circuit is left alone."""
+    from props.c14 import COLUMNS, column_gates
+    from tangelo.toolboxes.operators.trim_trivial_qubits import trim_trivial_circuit
+    rng, pr, s = case_rng(ctx.seed, "C09", "trivial_trim", case["i"])
+    n = pr.randint(1, 6)
+    k_ent = pr.randint(0, min(3, n))
+    ent = sorted(pr.sample(range(n), k_ent)) if k_ent >= 2 else []
+    gates, kinds = [], {}
+    for q in range(n):
+        if q in ent:
+            continue
+        kinds[q] = pr.choice(COLUMNS)
+        gates += column_gates(pr, kinds[q], q)
+    if ent:
+        sub = gen.random_gates(pr, len(ent), pr.randint(2, 6), names=["H", "CNOT", "RY", "RZ", "CZ", "X", "RX"], max_controls=1, hostile=0.1)
+        if not any(len(g[1]) + len(g[2] or []) > 1 for g in sub):
+            sub.append(("CNOT", [1], [0], ""))
+        for nm, tg, ct, par in sub:
+            gates.append((nm, [ent[x] for x in tg], None if ct is None else [ent[x] for x in ct], par))
+    circ = gen.to_circuit(gates, n_qubits=n if pr.random() < 0.5 else None)
+    w = circ.width
+    if w == 0:
+        return
+    snap = gen.from_circuit(circ)
+    tcirc, states = trim_trivial_circuit(circ)
+    wit = lambda: {"gates": gates, "n": n, "columns": kinds, "entangled": ent, "trimmed_gates": gen.from_circuit(tcirc), "trim_states": {str(k): v for k, v in states.items()}}
+    ctx.check("input_unchanged", gen.from_circuit(circ) == snap and circ.width == w, "trim_trivial_circuit changed its input circuit", wit)
+    psi = refsim.run(gates, w).reshape((2,) * w)
+    kept = [q for q in range(w) if q not in states]
+    ok = all(v in (0, 1) for v in states.values()) and all(0 <= q < w for q in states)
+    d = None
+    if ok:
+        sel = tuple(int(states[q]) if q in states else slice(None) for q in range(w))
+        part = psi[sel].reshape(-1)
+        ok = abs(np.linalg.norm(part) - 1) < 1e-6     # every removed qubit is in the reported basis state with certainty
+        w2 = tcirc.width
+        if ok and w2 <= len(kept):
+            # qubits kept but idle at the top of the register may have been trimmed off the width; they are in |0>
+            tg = gen.from_circuit(tcirc)
+            psi2 = refsim.run(tg, len(kept)) if kept else np.ones(1, dtype=complex)
+            d = refsim.dist_up_to_phase(part, psi2)
+            ok = d < 1e-6
+        elif ok:
+            ok = False
+    ctx.check("trim_trivial_circuit", ok, "original state is not (trimmed circuit on the kept qubits) x (reported basis states of the removed qubits) up to a phase",
+              lambda: dict(wit(), dist=d))
+    for kd in kinds.values():
+        ctx.tab("trivial_column_kind", kd)
+    if states and kept:
+        ctx.nontrivial(("trivial_trim", gates))
+
+
 def run_case(case, ctx):
-    {"circ": run_circ, "eq": run_eq, "clifford": run_clifford, "reindex": run_reindex, "gaptrim": run_gaptrim, "repo_tests": run_repo_tests}[case["sub"]](case, ctx)
+    {"circ": run_circ, "eq": run_eq, "clifford": run_clifford, "reindex": run_reindex, "gaptrim": run_gaptrim, "trivial_trim": run_trivial_trim, "repo_tests": run_repo_tests}[case["sub"]](case, ctx)
